@@ -49,13 +49,25 @@ def _render(i, o, sh, c, tcn, plain=()):
   b = htmldoc.Builder(c, taint_class_name=tcn, plain_roles=plain)
   v = b.build(sh)
   kw, excl = htmldoc.render_kwargs(o, v, b)
-  jv = (lambda x: pg.to_json(list(x) if isinstance(x, tuple) else x))
-  before = json.dumps(jv(v), sort_keys=True, default=repr)
+  before = htmldoc.snapshot(v)
   doc = pg.to_html_str(v, **kw)
-  after = json.dumps(jv(v), sort_keys=True, default=repr)
+  after = htmldoc.snapshot(v)
   evs, texts = htmldoc.events(doc, b.data)
   return dict(i=i, b=b, v=v, kw=kw, excl=excl, doc=doc, evs=evs, texts=texts, modified=before != after,
               shape=sh, opts=o)
+
+
+def _render_control(i, rec, c):
+  import pyglove as pg          # pylint: disable=import-outside-toplevel
+  from pgverif import htmldoc   # pylint: disable=import-outside-toplevel
+  b = htmldoc.Builder(c, taint_class_name=False)
+  v, expect = htmldoc.build_control(rec, b)
+  before = htmldoc.snapshot(v)
+  doc = pg.to_html_str(v)
+  after = htmldoc.snapshot(v)
+  evs, texts = htmldoc.events(doc, b.data)
+  return dict(i=i, b=b, v=v, kw={}, excl=None, doc=doc, evs=evs, texts=texts, modified=before != after,
+              shape=rec, opts={'control': rec['ctl']}, expect=expect)
 
 
 def _judge(chk, cases, r):
@@ -70,7 +82,7 @@ def _judge(chk, cases, r):
     chk.traces += 1
     chk.evaluations += len(evs)
     chk.distinct_case((cs['shape'], sorted(cs['opts'].items()), b.cls_name))
-    detail = {'case': i, 'shape': cs['shape'], 'options': cs['opts'], 'class': b.cls_name,
+    detail = {'case': i, 'shape': cs['shape'], 'options': cs['opts'], 'class': b.cls_name, 'seed': chk.seed,
               'kwargs': {k: repr(v) for k, v in cs['kw'].items()}}
     if cs['modified']:
       chk.violation({'clause': 'mutation'}, dict(detail, what='pg.to_json(value) changed by rendering'))
@@ -91,7 +103,12 @@ def _judge(chk, cases, r):
       chk.count('accepted_traces_with_metacharacters')
       chk.count('tainted_text_tokens_validated', sum(1 for e in evs if 'text_ok' in e['taint']))
     alltext = '\n'.join(cs['texts'])
-    for s in htmldoc.visible_sentinels(cs['v'], cs['excl'], b):
+    for t in cs.get('expect', ()):
+      chk.count('presence_checks')
+      if t not in alltext:
+        chk.violation({'clause': 'presence', 'role': 'control', 'control': cs['shape']['ctl']},
+                      dict(detail, missing=t))
+    for s in ([] if 'expect' in cs else htmldoc.visible_sentinels(cs['v'], cs['excl'], b)):
       chk.count('presence_checks')
       if b.data[s] not in alltext:
         how = 'other'
@@ -118,7 +135,7 @@ def run(chk):
   chk.add_tlc(rg)
   opts, shapes = gen['options'], gen['shapes']
   chk.notes['universe'] = {'option_combinations': len(opts), 'shapes': len(shapes), 'classes': len(htmldoc.CLASSES)}
-  n = 6000 if thorough else 1200
+  n = 8000 if thorough else 2700
   batch = 1000
   seen_opts = set()
   for start in range(0, n, batch):
@@ -139,6 +156,25 @@ def run(chk):
       raise tlc.TLCError(f'HtmlDoc trace validation failed: {r.violated}\n' + r.out[-2000:])
     _judge(chk, cases, r)
   chk.notes['option_combinations_used'] = len(seen_opts)
+  # the shipped controls, every option combination, rendered on their own / inside a pg.Dict / in a plain list
+  ctls = gen['controls']
+  cases = []
+  for j, rec in enumerate(ctls):
+    try:
+      cases.append(_render_control(100000 + j, rec, (j + chk.seed) % len(htmldoc.CLASSES)))
+    except Exception as e:   # pylint: disable=broad-except
+      chk.violation({'clause': 'render_raises', 'error': type(e).__name__, 'control': rec['ctl']},
+                    {'control': rec, 'error': str(e)[:300]})
+  traces = [{'id': cs['i'], 'ev': htmldoc.for_tlc(cs['evs'])} for cs in cases]
+  r = tlc.check_with_json('HtmlDoc', 'C20_trace.cfg', traces, var='TRACE_FILE', ndjson=True, workers=1,
+                          name='C20-trace-controls', timeout=1800)
+  chk.add_tlc(r)
+  if not r.ok:
+    raise tlc.TLCError(f'HtmlDoc trace validation (controls) failed: {r.violated}\n' + r.out[-2000:])
+  _judge(chk, cases, r)
+  chk.count('control_documents', len(cases))
+  chk.notes['controls'] = {'records': len(ctls), 'kinds': sorted({c['ctl'] for c in ctls})}
+  chk.require(len(cases) == len(ctls) or chk.violations or chk.known_hits, 'controls could not be rendered')
   # self-test of the automaton + tokenizer: hand-made bad documents must be rejected, a good one accepted
   bad = {
       'unclosed': '<html><body><div></body></html>',
@@ -172,7 +208,10 @@ def replay(chk, path):
   data = json.loads(open(path).read())
   d = data['detail']
   c = [n for n, _ in htmldoc.CLASSES].index(d['class'])
-  cs = _render(d['case'], d['options'], d['shape'], c, _TCN[(d['case'] // 2) % 4], _PLAIN[(d['case'] // 2) % 4])
+  if isinstance(d['shape'], dict):        # a control record
+    cs = _render_control(d['case'], d['shape'], c)
+  else:
+    cs = _render(d['case'], d['options'], d['shape'], c, _TCN[(d['case'] // 2) % 4], _PLAIN[(d['case'] // 2) % 4])
   traces = [{'id': cs['i'], 'ev': htmldoc.for_tlc(cs['evs'])}]
   r = tlc.check_with_json('HtmlDoc', 'C20_trace.cfg', traces, var='TRACE_FILE', ndjson=True, workers=1,
                           name='C20-replay', timeout=300)
